@@ -729,7 +729,7 @@ class ChunkParser:
     the parent ``PLSSParser``.
     """
 
-    def __init__(self, text, layout, parent: PLSSParser):
+    def __init__(self, text, layout, parent: PLSSParser, _is_replacement=False):
         self.text = text
         self.layout = layout
         self.parent = parent
@@ -755,7 +755,13 @@ class ChunkParser:
         self.unused_components = []
 
         # Parsing also hands off the relevant data to the parent.
-        self.parse_safe()
+        if _is_replacement:
+            # A replacement is parsed on behalf of the ChunkParser that
+            # created it, which steals the staged results and hands them
+            # off to the parent (once).
+            self.parse_chunk()
+        else:
+            self.parse_safe()
 
     def parse_safe(self):
         """
@@ -835,7 +841,8 @@ class ChunkParser:
             # If no tracts identified, rerun this chunk as copy_all layout.
             # And steal the staged flags, etc. from the replacement to
             # hand off to the parent PLSSParser object.
-            replacement = ChunkParser(self.text, COPY_ALL, self.parent)
+            replacement = ChunkParser(
+                self.text, COPY_ALL, self.parent, _is_replacement=True)
             replacement_attributes = (
                 'w_flags', 'w_flag_lines', 'e_flags', 'e_flag_lines',
                 'unused_components', 'tract_components'
